@@ -21,7 +21,7 @@ def _conv(a, keep):
         if k == 'str': return ctypes.c_char_p(v.encode())
     raise TypeError(a)
 
-def call(so, fn, args, restype='double', fcb=None, fcb_name='verif_f_ptr', fcb_sig=None, timeout=30, pre=None):
+def call(so, fn, args, restype='double', fcb=None, fcb_name='verif_f_ptr', fcb_sig=None, timeout=30, pre=None, read_globals=()):
     """returns dict: status ok|exit|signal|timeout, code, ret, arrays (contents of every array argument after the call), calls (callback log)"""
     r, w = os.pipe()
     pid = os.fork()
@@ -45,7 +45,7 @@ def call(so, fn, args, restype='double', fcb=None, fcb_name='verif_f_ptr', fcb_s
             cargs = [_conv(a, keep) for a in args]
             # flush a marker first so that an exit() inside the call still reports the callback log
             ret = f(*cargs)
-            out = {'status': 'ok', 'ret': ret, 'arrays': [list(arr)[:n] for (_, arr, n) in keep], 'calls': log}
+            out = {'status': 'ok', 'ret': ret, 'arrays': [list(arr)[:n] for (_, arr, n) in keep], 'calls': log, 'globals': {g: ctypes.c_double.in_dll(lib, g).value for g in read_globals}}
             os.write(w, pickle.dumps(out))
         except BaseException as e:
             try: os.write(w, pickle.dumps({'status': 'pyerror', 'error': repr(e)}))
